@@ -101,6 +101,9 @@ pub fn gvar_arr(t: &Tables) -> Result<GlyphArr, String> {
     let tuples_len = stc * axis * 2;
     let tuples = g.get(sto..sto + tuples_len).ok_or("gvar: shared tuples beyond table")?.to_vec();
     let data = if sto >= dao && tuples_len > 0 { &g[dao..sto] } else { data };
+    // When no glyph has variation data the patcher writes one zero padding byte as the data array (a zero
+    // length object cannot be packed and linked to; /repo 5a3cd3a). No offset refers to it: not glyph data.
+    let data = if offs.last() == Some(&0) && data == [0u8] { &data[..0] } else { data };
     let items = slice_items(&offs, data, "gvar", 0)?;
     let meta = vec![
         ("gvar.version+axisCount+sharedTupleCount".to_string(), g[0..8].to_vec()),
